@@ -17,6 +17,12 @@ Decided (necessary conditions, visible in the shape of the code):
       runtime refuses an existing run id; the DBOS resume awaits the old workflow before restart;
   R6  (conditional) if the reducer can reject TickIdleRelease, the DBOS releaser has a `releasing` ->
       `active` compensation, otherwise the lifecycle row sticks and later senders hang.
+  R7  ownership of `releasing` across suspension points (DBOS stack): the idle-timer task is stored in a registry whose
+      entries are cancelled on every received tick, on re-schedule and on resume.  The task must have left that registry
+      (or hand the release to a task the registry does not hold) before the first suspension point that follows a
+      successful release CAS, on every path; and no removal of its key may run on the task's cancellation path unless it
+      is guarded by `stored task is this task` (the canceller already removed the entry and a re-schedule stores the
+      successor under the same key in the same step).
 
 Not decided: DBOS / Postgres / SQLite semantics (trusted), multi-replica timing, scheduled work held
 only in the runner's timer heap (decided by C03.R2 / C14.R1), the short overlap between a cancelled
@@ -45,7 +51,7 @@ from ..astx import (
 )
 from ..cfg import CFG
 from ..index import AnchorError, FuncNode, ancestors, enclosing_function, parent, qualname_of, walk_shallow
-from ..selftest import Twin
+from ..selftest import Twin, multi
 
 EXPLANATION = (
     "Static necessary-condition rules for idle release / resume. "
@@ -67,6 +73,15 @@ EXPLANATION = (
     "is entered only by the owner of the `released` transition, restarting with the same run id. "
     "R6 (conditional on R1's guard being present): when some path of the TickIdleRelease branch returns without the exit command, a "
     "RunLifecycleLock transition `releasing`→`active` other than the crash-timeout takeover must exist and be called from the DBOS idle-release module. "
+    "R7: in the DBOS decorator the timer registry is bound by role (the dict attribute whose looked-up values receive `.cancel()`; the coroutine "
+    "methods whose spawned task is stored in it are the timers; the release CAS is any RunLifecycleLock transition whose UPDATE sets `releasing`). "
+    "Walking the timer coroutine and the methods it awaits in its own task, every suspension point reachable (normal edges) after a CAS call must be "
+    "unreachable from the coroutine's entry without passing a removal of the task's own key from the registry (`pop(key…)`, `del reg[key]`, or the "
+    "absent edge of `key in reg`); a release handed to create_task / ensure_future / shield / the class's spawner runs in an unregistered task and is "
+    "accepted; a coroutine call that is neither awaited nor handed to a spawner is exit 2. Every removal reachable from the cancellation edge of one "
+    "of the task's suspension points must be dominated by `<reg>.get(key) is asyncio.current_task()` (zero such removals today; exercised on a planted fixture). "
+    "Not decided by R7: whether a cancel path that skips releasing tasks by another mechanism is correct (a canceller guarded by other state is not modelled; "
+    "today the canceller tests only `is not None` / `done()`), and cancellation of the CAS await itself. "
     "Not decided: database/DBOS semantics, cross-replica timing, timers in the runner's heap (C03/C14), delivery liveness."
 )
 TRUSTED = [
@@ -75,7 +90,7 @@ TRUSTED = [
     "single-statement UPDATE … WHERE atomicity and SELECT … FOR UPDATE row locks (Postgres), sqlite3 statement atomicity",
     "DBOS workflow completion / mailbox semantics",
 ]
-LEVEL_TEXT = "static necessary-condition rules (guard dominance, critical-section nesting, CAS shape of SQL, finite evaluation of the idle predicate)"
+LEVEL_TEXT = "static necessary-condition rules (guard dominance, critical-section nesting, CAS shape of SQL, finite evaluation of the idle predicate, registry-membership typestate across suspension points)"
 LEVEL_NOTE = (
     "A pass means the decided clauses hold, not the whole property: delivery liveness, database semantics, cross-replica "
     "timing and scheduled work in the runner's timer heap are not decided here."
@@ -1088,6 +1103,319 @@ def rule_r6(chk) -> None:
                  "sender: try_begin_resume -> releasing … (crash timeout) -> forced `released` -> _do_resume awaits the live workflow"] if not called else None)
 
 
+# ======================================================================================= R7
+
+
+_DETACH = ("create_task", "ensure_future", "shield")
+
+
+def _tail_attr(e: ast.AST | None) -> str | None:
+    """`self.<attr>` / `self.<x>.<attr>` -> attr (the object that owns the registry may be reached through the adapter)."""
+    if isinstance(e, ast.Attribute) and (dotted(e) or "").startswith("self."):
+        return e.attr
+    return None
+
+
+def _registry_lookup(e: ast.AST | None) -> tuple[str, ast.AST | None] | None:
+    """(registry attribute, key) for `<self…>.<attr>.pop(k, …)` / `.get(k, …)` / `<self…>.<attr>[k]`."""
+    e = strip_await(e)
+    if isinstance(e, ast.Call) and isinstance(e.func, ast.Attribute) and e.func.attr in ("pop", "get") and e.args:
+        a = _tail_attr(e.func.value)
+        return (a, e.args[0]) if a else None
+    if isinstance(e, ast.Subscript):
+        a = _tail_attr(e.value)
+        return (a, e.slice) if a else None
+    return None
+
+
+def _dict_attrs_of_init(cls: ast.ClassDef) -> set[str]:
+    out = set()
+    init = method(cls, "__init__")
+    for s in ast.walk(init) if init is not None else ():
+        if isinstance(s, (ast.Assign, ast.AnnAssign)) and s.value is not None:
+            tgt = s.targets[0] if isinstance(s, ast.Assign) else s.target
+            v = s.value
+            if isinstance(tgt, ast.Attribute) and isinstance(tgt.value, ast.Name) and tgt.value.id == "self" and (
+                    isinstance(v, ast.Dict) or (isinstance(v, ast.Call) and last(call_name(v)) in ("dict", "defaultdict", "WeakValueDictionary"))):
+                out.add(tgt.attr)
+    return out
+
+
+def attr_names_of_init(cls: ast.ClassDef) -> set[str]:
+    init = method(cls, "__init__")
+    return {t.attr for s in (ast.walk(init) if init is not None else ()) if isinstance(s, (ast.Assign, ast.AnnAssign))
+            for t in (s.targets if isinstance(s, ast.Assign) else [s.target]) if isinstance(t, ast.Attribute) and isinstance(t.value, ast.Name) and t.value.id == "self"}
+
+
+class TimerRegistry:
+    """Role binding and path analysis for C26.R7 on one decorator class (used on the repo class and on the planted fixture).
+
+    registry   = a dict attribute of the class whose looked-up values receive `.cancel()` somewhere in the module
+    timers     = the coroutine methods whose task is stored in that dict (`self.<reg>[k] = <spawn>(self.<T>(k))`)
+    CAS        = calls of a lifecycle transition that moves the row to `releasing` (names given by the caller)
+    """
+
+    def __init__(self, tree: ast.AST, cls: ast.ClassDef, cas_names: set[str]):
+        self.tree, self.cls, self.cas_names = tree, cls, set(cas_names)
+        self.methods = {n.name: n for n in cls.body if isinstance(n, FuncNode)}
+        self.detachers = set(_DETACH)
+        for name, fn in self.methods.items():
+            ps = fn_params(fn)[1:]
+            for c in walk_shallow(fn):
+                if isinstance(c, ast.Call) and last(call_name(c)) in ("create_task", "ensure_future") and c.args and isinstance(c.args[0], ast.Name) and c.args[0].id in ps:
+                    self.detachers.add(name)
+        dicts = _dict_attrs_of_init(cls)
+        self.cancel_sites: dict[str, list[tuple[ast.AST, ast.Call]]] = {}
+        for fn in (n for n in ast.walk(tree) if isinstance(n, FuncNode)):
+            for c in walk_shallow(fn):
+                if isinstance(c, ast.Call) and isinstance(c.func, ast.Attribute) and c.func.attr == "cancel" and not c.args:
+                    recv = c.func.value
+                    look = _registry_lookup(reaching_def(recv.id, c)) if isinstance(recv, ast.Name) else _registry_lookup(recv)
+                    if look is not None and look[0] in dicts:
+                        self.cancel_sites.setdefault(look[0], []).append((fn, c))
+        self.timers: dict[str, list[tuple[str, ast.AST]]] = {}  # reg -> [(timer method name, store stmt)]
+        for reg in self.cancel_sites:
+            for fn in self.methods.values():
+                for s in walk_shallow(fn):
+                    if isinstance(s, ast.Assign) and len(s.targets) == 1 and isinstance(s.targets[0], ast.Subscript) and _tail_attr(s.targets[0].value) == reg:
+                        v = expand(s.value, s)
+                        found = [a.func.attr for c in ast.walk(v) if isinstance(c, ast.Call) and last(call_name(c)) in self.detachers
+                                 for a in c.args if isinstance(a, ast.Call) and isinstance(a.func, ast.Attribute) and _tail_attr(a.func) in self.methods]
+                        if not found:
+                            raise AnchorError(f"C26.R7: `{ast.unparse(s)[:80]}` stores something in the timer registry `{reg}` that the rule cannot trace to a coroutine method of {cls.name}")
+                        self.timers.setdefault(reg, []).extend((t, s) for t in found)
+
+    # ---- per-function facts
+    def removals(self, cfg: CFG, fn: ast.AST, reg: str) -> tuple[list, list]:
+        """(CFG nodes that remove the task's own key from the registry, branch edges on which the key is known absent)."""
+        ps = set(fn_params(fn))
+        nodes, edges = [], []
+        for n in cfg.nodes:
+            if n.ast is None:
+                continue
+            if n.kind == "stmt" and isinstance(n.ast, ast.Delete):
+                for t in n.ast.targets:
+                    look = _registry_lookup(t)
+                    if look and look[0] == reg and isinstance(look[1], ast.Name) and look[1].id in ps:
+                        nodes.append(n)
+                continue
+            for x in _exprs(n):
+                if isinstance(x, ast.Call) and isinstance(x.func, ast.Attribute) and x.func.attr == "pop":
+                    look = _registry_lookup(x)
+                    if look and look[0] == reg and isinstance(look[1], ast.Name) and look[1].id in ps:
+                        nodes.append(n)
+            if n.kind == "test":
+                t, neg = n.ast.test, False
+                while isinstance(t, ast.UnaryOp) and isinstance(t.op, ast.Not):
+                    t, neg = t.operand, not neg
+                if isinstance(t, ast.Compare) and len(t.ops) == 1 and isinstance(t.ops[0], (ast.In, ast.NotIn)) and _tail_attr(t.comparators[0]) == reg \
+                        and isinstance(t.left, ast.Name) and t.left.id in ps:
+                    absent_when_true = isinstance(t.ops[0], ast.NotIn) != neg
+                    edges.append((n, "T" if absent_when_true else "F"))
+        return nodes, edges
+
+    def _self_calls(self, n) -> list[tuple[ast.Call, ast.AST]]:
+        return [(x, self.methods[x.func.attr]) for x in _exprs(n)
+                if isinstance(x, ast.Call) and isinstance(x.func, ast.Attribute) and isinstance(x.func.value, ast.Name) and x.func.value.id == "self" and x.func.attr in self.methods]
+
+    def has_cas(self, fn: ast.AST, seen: frozenset = frozenset()) -> bool:
+        if fn.name in seen:
+            return False
+        for x in walk_shallow(fn):
+            if isinstance(x, ast.Call) and isinstance(x.func, ast.Attribute):
+                if x.func.attr in self.cas_names:
+                    return True
+                if isinstance(x.func.value, ast.Name) and x.func.value.id == "self" and x.func.attr in self.methods \
+                        and self.has_cas(self.methods[x.func.attr], seen | {fn.name}):
+                    return True
+        return False
+
+    def _in_task(self, call: ast.Call, callee: ast.AST) -> bool:
+        """Does the coroutine `self.<callee>(…)` run inside the calling task?  awaited directly -> yes; handed to
+        create_task / ensure_future / shield / a spawner method of the class -> no (its own, unregistered task)."""
+        p = parent(call)
+        if isinstance(p, ast.Await):
+            return True
+        if isinstance(p, ast.Call) and call in p.args and last(call_name(p)) in self.detachers:
+            return False
+        raise AnchorError(f"C26.R7: cannot tell in which task `{ast.unparse(call)[:60]}` (it moves the row to `releasing`) runs: neither awaited directly nor handed to a task spawner")
+
+    def analyse(self, fn: ast.AST, reg: str, seen: frozenset = frozenset()) -> dict:
+        """Walk the part of `fn` in which the task is still registered.  Returns
+        owned: suspension points reached after a CAS while registered [(fn, cfg node, cas text)],
+        leaks: the function may return, still registered, after a CAS,
+        cas_sites / post_cas: CAS calls and suspension points after them seen at all (floors),
+        late: removals that run on a cancellation path [(fn, cfg node, cfg)]."""
+        cfg = CFG(fn)
+        R, BE = self.removals(cfg, fn, reg)
+        res = {"owned": [], "leaks": False, "cas_sites": 0, "post_cas": 0, "late": [], "suspensions": 0}
+        live = cfg.reach([cfg.entry], blocked=R, blocked_edges=BE)
+        for n in cfg.nodes:
+            if n.ast is None or n.tag:
+                continue
+            cas_txt = [ast.unparse(x.func) for x in _exprs(n) if isinstance(x, ast.Call) and isinstance(x.func, ast.Attribute) and x.func.attr in self.cas_names]
+            res["cas_sites"] += len(cas_txt)
+            sub_leak = False
+            for call, callee in self._self_calls(n):
+                if callee.name in seen or callee.name == fn.name or not isinstance(callee, ast.AsyncFunctionDef) or not self.has_cas(callee):
+                    continue
+                in_task = self._in_task(call, callee)
+                sub = self.analyse(callee, reg, seen | {fn.name})
+                res["cas_sites"] += sub["cas_sites"]
+                res["post_cas"] += sub["post_cas"]
+                if not in_task:
+                    continue  # the release runs in a task of its own, which the registry does not hold
+                res["suspensions"] += sub["suspensions"]
+                res["late"] += sub["late"]
+                if n in live:
+                    res["owned"] += sub["owned"]
+                    sub_leak |= sub["leaks"]
+                    cas_txt = cas_txt or ([f"{callee.name} → …"] if sub["leaks"] else [])
+                elif sub["post_cas"]:
+                    cas_txt = cas_txt or [f"{callee.name} → …"]
+            if not cas_txt:
+                continue
+            after_all = cfg.reach([n], labels_excluded=("exc", "cancel"), include_starts=False)
+            res["post_cas"] += sum(1 for a in after_all if getattr(a, "_cancel", False))
+            if n in live:
+                after = cfg.reach([n], blocked=R, blocked_edges=BE, labels_excluded=("exc", "cancel"), include_starts=False)
+                for a in after:
+                    if getattr(a, "_cancel", False):
+                        res["owned"].append((fn, a, cas_txt[0]))
+                if cfg.exit in after:
+                    res["leaks"] = True
+        # removals that execute after the task was cancelled at one of its suspension points
+        for s in cfg.nodes:
+            if not getattr(s, "_cancel", False) or s.tag:
+                continue
+            res["suspensions"] += 1
+            starts = []
+            for lab, t in cfg.succ[s]:
+                if lab == "cancel":
+                    starts.append(t)
+                elif lab == "exc" and not (t.kind == "handler" and not _catches_cancel(t.ast)):
+                    starts.append(t)
+            for r in cfg.reach(starts):
+                if r in R and not any(r is x[1] for x in res["late"]):
+                    res["late"].append((fn, r, cfg))
+        return res
+
+    def identity_guarded(self, fn: ast.AST, cfg: CFG, node, reg: str) -> bool:
+        """The removal is dominated by a test `<registry lookup of the key> is/== <this task>`."""
+        mentions = False
+        for t, lab in cfg.guards(node):
+            if t.kind != "test":
+                continue
+            for x in ast.walk(t.ast.test):
+                if isinstance(x, ast.Compare) and len(x.ops) == 1 and isinstance(x.ops[0], (ast.Is, ast.Eq)) and lab == "T":
+                    sides = [x.left, x.comparators[0]]
+                    for a, b in (sides, sides[::-1]):
+                        la = _registry_lookup(expand(a, t.ast))
+                        eb = strip_await(expand(b, t.ast))
+                        if la and la[0] == reg and isinstance(eb, ast.Call) and last(call_name(eb)) == "current_task":
+                            return True
+            mentions |= any(_tail_attr(x) == reg for x in ast.walk(t.ast.test))
+        if mentions:
+            raise AnchorError(f"C26.R7: the registry removal at line {node.line} of {fn.name} is guarded by a test over `{reg}` that the rule cannot read as `stored task is this task`")
+        return False
+
+
+def _exprs(n) -> list[ast.AST]:
+    from ..cfg import exprs_in_node
+    return list(exprs_in_node(n))
+
+
+def _catches_cancel(h: ast.ExceptHandler) -> bool:
+    if h.type is None:
+        return True
+    names = [ast.unparse(e).split(".")[-1] for e in (h.type.elts if isinstance(h.type, ast.Tuple) else [h.type])]
+    return any(x in ("BaseException", "CancelledError") for x in names)
+
+
+def _r7_findings(reg_obj: TimerRegistry) -> list[dict]:
+    out = []
+    for reg, timers in reg_obj.timers.items():
+        for tname in sorted({t for t, _s in timers}):
+            fn = reg_obj.methods[tname]
+            if not isinstance(fn, ast.AsyncFunctionDef):
+                raise AnchorError(f"C26.R7: `{tname}`, stored in the timer registry `{reg}`, is not a coroutine method")
+            res = reg_obj.analyse(fn, reg)
+            late_bad = [(f, node) for f, node, cfg in res["late"] if not reg_obj.identity_guarded(f, cfg, node, reg)]
+            out.append({"reg": reg, "timer": fn, "res": res, "late_bad": late_bad})
+    return out
+
+
+def _releasing_transitions(repo) -> set[str]:
+    """Names of the RunLifecycleLock transitions whose UPDATE moves a row to `releasing` (the release CAS)."""
+    _m0, _base, impls, ename, members = lifecycle_impls(repo)
+    names = set()
+    for _ref, _mm, cls in impls:
+        for n in cls.body:
+            if isinstance(n, FuncNode):
+                for sq in sql_statements(n):
+                    if sq.verb == "UPDATE":
+                        sets, _where = sq.assignments()
+                        if state_member(sets.get("state"), ename, members, sq.call) == "releasing":
+                            names.add(n.name)
+    if not names:
+        raise AnchorError("C26.R7: no RunLifecycleLock method moves a row to `releasing`")
+    return names
+
+
+def rule_r7(chk) -> None:
+    """Ownership across suspension points: a task that the timer registry can cancel must not be the one that holds the
+    `releasing` state.  `<canceller>` (run for every received tick, for every re-schedule and on resume) cancels whatever task
+    the registry holds for the run id.  A cancellation delivered after the release CAS committed ends the task before
+    TickIdleRelease is sent / complete_release is arranged: nothing moves the row out of `releasing` again."""
+    repo = chk.repo
+    md, deco = repo.cls(f"{DBI}:DBOSIdleReleaseDecorator")
+    cas = _releasing_transitions(repo)
+    tr = TimerRegistry(md.tree, deco, cas)
+    if not tr.cancel_sites:
+        raise AnchorError(f"C26.R7: no `.cancel()` of a task looked up in a dict attribute of {deco.name} found in {md.rel} (timer registry not bound)")
+    chk.floor("C26.R7", "timer registries (dict of tasks whose entries are cancelled per tick / re-schedule / resume)", len(tr.cancel_sites), 1)
+    findings = _r7_findings(tr)
+    chk.floor("C26.R7", "timer coroutines stored in the registry", len(findings), 1)
+    for f in findings:
+        reg, fn, res = f["reg"], f["timer"], f["res"]
+        cancellers = sorted({qualname_of(cf).split(".")[-1] for cf, _c in tr.cancel_sites[reg]})
+        chk.floor("C26.R7", f"release CAS calls reached from the timer `{fn.name}`", res["cas_sites"], 1)
+        chk.floor("C26.R7", f"suspension points that follow the release CAS on the way from `{fn.name}`", res["post_cas"], 1)
+        owned = res["owned"]
+        if owned:
+            # the alternative repair — a canceller that skips a task which has begun releasing — is not modelled: a cancel
+            # site whose guards read other state of the object is exit 2, not a violation
+            for cf, c in tr.cancel_sites[reg]:
+                ccfg = CFG(cf)
+                for cn in ccfg.node_of_containing(c):
+                    for t, _lab in ccfg.guards(cn):
+                        other = sorted({a for x in ast.walk(t.ast.test) if t.kind == "test" for a in [_tail_attr(x)] if a and a != reg and a in _dict_attrs_of_init(deco) | set(attr_names_of_init(deco))})
+                        if other:
+                            raise AnchorError(f"C26.R7: `{fn.name}` stays registered while it owns `releasing`, but the cancel site in {qualname_of(cf)} is guarded by `self.{other[0]}`: "
+                                              "the rule cannot tell whether cancellation skips a releasing task")
+        first = owned[0] if owned else None
+        chk.ob("C26.R7", f"the timer task `{fn.name}` has left `{reg}` (is no longer cancellable) before any suspension point that follows a successful release CAS", not owned,
+               m=md, node=first[1].ast if first else fn, fn=first[0] if first else fn, instance=f"timer:{fn.name}:deregistered-before-owning-releasing",
+               reason=(f"`{fn.name}` is still stored in `self.{reg}` when it suspends at `{' '.join(ast.unparse(_hdr(first[1])).split())[:70]}` after `{first[2]}` moved the row to `releasing`; "
+                       f"the stored task is cancelled from {', '.join(cancellers)} (every received tick, re-schedule, resume): cancelled there, TickIdleRelease is never sent and "
+                       "complete_release never runs — the row stays `releasing`, senders poll until the crash timeout and then wait for a workflow that is alive. "
+                       f"Remove the entry (`self.{reg}.pop(<run id>, None)`) before the release starts, or run the release in a task the registry does not hold") if first else "",
+               path=[f"{qualname_of(o[0]).split('.')[-1]}:{o[1].line} still registered at `{' '.join(ast.unparse(_hdr(o[1])).split())[:80]}`" for o in owned[:4]] if owned else None)
+        bad = f["late_bad"]
+        chk.ob("C26.R7", f"no unconditional removal from `{reg}` runs after the timer task `{fn.name}` was cancelled (a cancelled timer's key may already belong to its successor)", not bad,
+               m=md, node=bad[0][1].ast if bad else fn, fn=bad[0][0] if bad else fn, instance=f"timer:{fn.name}:cancel-path-removal",
+               reason=(f"`{' '.join(ast.unparse(bad[0][1].ast).split())[:70]}` also runs when the task is cancelled; the canceller has already removed the entry and, on re-schedule, "
+                       "stored the *new* timer under the same key in the same step — this removal then drops the new timer from the registry, later ticks cannot cancel it and it releases a run that is working. "
+                       f"Remove only when `self.{reg}.get(<run id>) is asyncio.current_task()`") if bad else "")
+    chk.floor("C26.R7", "suspension points of timer tasks examined for cancellation-path removals", sum(f["res"]["suspensions"] for f in findings), 1)
+
+
+def _hdr(n) -> ast.AST:
+    from ..cfg import _header_exprs
+    h = _header_exprs(n.ast) if not isinstance(n.ast, ast.ExceptHandler) else [n.ast]
+    return h[0] if h else n.ast
+
+
 def run(chk) -> None:
     from ._engine import engine_view
     chk.extra["helpers_inlined"] = engine_view(chk.repo)
@@ -1100,12 +1428,14 @@ def run(chk) -> None:
     rule_r2(chk)
     rule_r5(chk)
     rule_r6(chk)
+    rule_r7(chk)
     _fixture(chk)
 
 
 # ======================================================================================= fixture (zero-expected shapes stay honest)
 
 FIXTURE = "fixtures/c26/unguarded_release.py"
+FIXTURE_R7 = "fixtures/c26/timer_registry_planted.py"
 
 
 def _fixture(chk) -> None:
@@ -1125,6 +1455,15 @@ def _fixture(chk) -> None:
     _sets, where = s.assignments()
     planted = (not ok1) and "state" not in where
     chk.floor("C26.fixture", "planted violations recognised (unguarded release branch, unconditional lifecycle UPDATE)", 2 if planted else 0, 2)
+    p7 = VERIF / FIXTURE_R7
+    if not p7.is_file():
+        raise AnchorError(f"fixture {FIXTURE_R7} missing")
+    tree7 = ast.parse(p7.read_text())
+    _set_parents(tree7)
+    cls7 = next(n for n in tree7.body if isinstance(n, ast.ClassDef))
+    f7 = _r7_findings(TimerRegistry(tree7, cls7, {"begin_release"}))
+    seen7 = sum(bool(f["res"]["owned"]) for f in f7) + sum(bool(f["late_bad"]) for f in f7)
+    chk.floor("C26.fixture", "planted R7 shapes recognised (timer registered while it owns `releasing`, removal on the cancellation path)", seen7, 2)
 
 
 # ======================================================================================= twins
@@ -1147,7 +1486,37 @@ _R3_SEND_OLD = ("        async with self._runtime._reload_lock(self.run_id):\n  
 _R3_SEND_ARMS = ("            if run_is_active:\n                await self._runtime._store.update_handler_status(\n                    self.run_id, idle_since=None\n                )\n"
                  "            else:\n                await self._runtime._ensure_active_run_locked(self.run_id)\n")
 
+_R7_OLD = "        await asyncio.sleep(self._idle_timeout)\n        self._deferred_release_tasks.pop(run_id, None)\n        await self._release_idle_handler(run_id)\n"
+_R7_HEAD = "        lifecycle = await self._get_lifecycle()\n        if not await lifecycle.begin_release(run_id):\n            return\n"
+_R7_SEND = "        await external.send_event(TickIdleRelease())\n"
+_R7_NOPOP = "        await asyncio.sleep(self._idle_timeout)\n        await self._release_idle_handler(run_id)\n"
+
 TWINS = [
+    # ---- R7 (timer task must not be cancellable through the registry while it owns `releasing`)
+    Twin("R7 registry removal in try/finally around sleep and release (seed form)", _DBI, _R7_OLD,
+         "        try:\n            await asyncio.sleep(self._idle_timeout)\n            await self._release_idle_handler(run_id)\n        finally:\n            self._deferred_release_tasks.pop(run_id, None)\n", "C26.R7"),
+    Twin("R7 registry removal after the release", _DBI, _R7_OLD,
+         "        await asyncio.sleep(self._idle_timeout)\n        await self._release_idle_handler(run_id)\n        self._deferred_release_tasks.pop(run_id, None)\n", "C26.R7"),
+    Twin("R7 registry removal dropped", _DBI, _R7_OLD, _R7_NOPOP, "C26.R7"),
+    Twin("R7 registry removal only after TickIdleRelease was sent (moved into the releaser)", _DBI,
+         *multi(_DBI, [(_R7_OLD, _R7_NOPOP), (_R7_SEND, _R7_SEND + "        self._deferred_release_tasks.pop(run_id, None)\n")]), "C26.R7"),
+    Twin("R7 removal skipped on one path (only when the timeout is positive)", _DBI, _R7_OLD,
+         "        await asyncio.sleep(self._idle_timeout)\n        if self._idle_timeout > 0:\n            self._deferred_release_tasks.pop(run_id, None)\n        await self._release_idle_handler(run_id)\n", "C26.R7"),
+    Twin("R7 early removal kept but an unconditional cleanup also runs on cancellation", _DBI, _R7_OLD,
+         "        try:\n            await asyncio.sleep(self._idle_timeout)\n            self._deferred_release_tasks.pop(run_id, None)\n            await self._release_idle_handler(run_id)\n        finally:\n            self._deferred_release_tasks.pop(run_id, None)\n", "C26.R7"),
+    Twin("R7 benign: early removal kept, cleanup in finally only if the stored task is this task", _DBI, _R7_OLD,
+         "        try:\n            await asyncio.sleep(self._idle_timeout)\n            self._deferred_release_tasks.pop(run_id, None)\n            await self._release_idle_handler(run_id)\n        finally:\n"
+         "            if self._deferred_release_tasks.get(run_id) is asyncio.current_task():\n                self._deferred_release_tasks.pop(run_id, None)\n", None),
+    Twin("R7 benign: membership test + del", _DBI, _R7_OLD,
+         "        await asyncio.sleep(self._idle_timeout)\n        if run_id in self._deferred_release_tasks:\n            del self._deferred_release_tasks[run_id]\n        await self._release_idle_handler(run_id)\n", None),
+    Twin("R7 benign: removal moved to the head of the releaser (before the CAS)", _DBI,
+         *multi(_DBI, [(_R7_OLD, _R7_NOPOP), (_R7_HEAD, "        self._deferred_release_tasks.pop(run_id, None)\n" + _R7_HEAD)]), None),
+    Twin("R7 benign: removal between the CAS and the next suspension point", _DBI,
+         *multi(_DBI, [(_R7_OLD, _R7_NOPOP), (_R7_HEAD, _R7_HEAD + "        self._deferred_release_tasks.pop(run_id, None)\n")]), None),
+    Twin("R7 benign: the release runs in its own unregistered task", _DBI, _R7_OLD,
+         "        await asyncio.sleep(self._idle_timeout)\n        self._deferred_release_tasks.pop(run_id, None)\n        self._spawn_task(self._release_idle_handler(run_id))\n", None),
+    Twin("R7 benign: detached release without the early removal (the registered task ends before the CAS)", _DBI, _R7_OLD,
+         "        await asyncio.sleep(self._idle_timeout)\n        await asyncio.shield(self._spawn_task(self._release_idle_handler(run_id)))\n", None),
     # ---- R1 (the pinned tree has the unguarded form; the guarded forms are the repaired tree)
     # the guard forms below discharge R1 (verified in the module's own checks) but, alone, create the stuck-`releasing` hazard that R6 reports
     Twin("R6 guard added without compensation (early-return form)", _CL, _R1_OLD, _R1_GUARD_A, "C26.R6"),
